@@ -11,7 +11,7 @@ class Ob:
     engine 'chx' : CrossHair on function `fn` (a name) of harness module `module`.
     engine 'gate': fn() -> (ok, info) validation of a model/theory/shim against the real implementation."""
     def __init__(self, id, fn, engine = 'symx', setup = None, budget_s = 120, fuel = 2000, max_paths = 200000, desc = '',
-                 module = None, qtimeout_ms = 5000, bounds = None, classify = None, twin = None, pins = None):
+                 module = None, qtimeout_ms = 8000, bounds = None, classify = None, twin = None, pins = None):
         self.id = id; self.fn = fn; self.engine = engine; self.setup = setup; self.budget_s = budget_s; self.fuel = fuel
         self.max_paths = max_paths; self.desc = desc; self.module = module; self.qtimeout_ms = qtimeout_ms
         self.bounds = bounds or {}; self.classify = classify; self.twin = twin; self.pins = pins
@@ -91,7 +91,7 @@ def run_obligations(obs, jobs, seed, known, log):
 
 def _short(r):
     if r.get('crashed'): return 'CRASHED ' + r['crashed'].strip().splitlines()[-1][:150]
-    if r['engine'] == 'gate': return ('gate ok ' if r['ok'] else 'GATE FAILED ') + json.dumps(r['info'])[:150]
+    if r['engine'] == 'gate': return ('gate ok ' if r.get('ok') else 'GATE FAILED ') + json.dumps(r.get('info'))[:150]
     v = verdict(r)
     s = '%-13s paths=%s queries=%s solver=%ss wall=%ss' % (v, r.get('paths'), r.get('queries'), r.get('solver_s'), r.get('wall_s'))
     if r.get('failures'): s += ' model=' + json.dumps(r['failures'][0].get('model'))[:200]
@@ -101,7 +101,7 @@ def _short(r):
 
 def verdict(r):
     if r.get('crashed'): return 'crashed'
-    if r['engine'] == 'gate': return 'gate-ok' if r['ok'] else 'gate-failed'
+    if r['engine'] == 'gate': return 'gate-ok' if r.get('ok') else 'gate-failed'
     if r.get('failures'): return 'model-found'
     if not r.get('complete'): return 'inconclusive'
     if r.get('uncovered'): return 'vacuous'
@@ -211,7 +211,7 @@ def main(pid, tier, jobs = None, only = None, seed = None):
     for ob in obs:
         r = byid[ob.id]
         if r.get('crashed'): harness_error = True
-        if r['engine'] == 'gate' and not r['ok']: harness_error = True
+        if r['engine'] == 'gate' and not r.get('ok'): harness_error = True
         r['verdict'] = verdict(r)
         for f in r.get('failures', []):
             nrep += 1
